@@ -840,7 +840,12 @@ class Shelxfile():
             ref = ShelxlRefine(self, self.resfile)
             ref.remove_acta_card(self.acta)
             self.write_shelx_file(filen + '.ins')
-            ref.run_shelxl(backup_before=backup_before)
+            try:
+                ref.run_shelxl(backup_before=backup_before)
+            except BaseException:
+                # A failed run (run_shelxl() leaves with sys.exit()) must not cost the model its ACTA card:
+                ref.restore_acta_card()
+                raise
             self.reload()
             ref.restore_acta_card()
             # self.write_shelx_file(filen + '.res')
